@@ -485,12 +485,12 @@ def concurrent(ctx, r, gran):
 				ctx.violation("concurrent", {"scenario": scenario, "start": 0, "switches": []}, what = err)
 				continue
 			n = info["points"]
-			ctx.count("decision_points:%s" % scenario, n)
+			ctx.count("decision_points:%s:%s" % (gran, scenario), n)
 			if n < 5:
 				ctx.inconclusive_because("scheduler saw only %d decision points in scenario %s" % (n, scenario))
 				continue
 			plans = []
-			if gran == "line":
+			if gran in ("line", "switch"):
 				# all schedules with <= 2 preemptions
 				for start in (0, 1):
 					plans.append((start, []))
@@ -531,6 +531,7 @@ def concurrent(ctx, r, gran):
 					break
 	finally:
 		sc.uninstall()
+	ctx.count("distinct_schedules:%s" % gran, len(distinct))
 	ctx.count("distinct_schedules", len(distinct))
 	ctx.count("lock_contentions", sc.contended)
 
@@ -569,8 +570,11 @@ def run(ctx):
 		if ctx.too_many() or ctx.time_left() < 0:
 			break
 	ctx.current_case = None
-	concurrent(ctx, r, "line")
-	real_threads(ctx, r)
+	import os
+	for gran in os.environ.get("VERIF_GRAN", "line,switch").split(","):
+		concurrent(ctx, r, gran)
+	if "VERIF_GRAN" not in os.environ:
+		real_threads(ctx, r)
 	if ctx.tier == "thorough" and ctx.shard[0] % 4 == 0:
 		concurrent(ctx, r, "instruction")
 	ctx.require("histories", 100)
